@@ -10,12 +10,14 @@ from vf.models import insn_roundtrip as rt
 CHECK = dict(
     id="C16", level="exploration",
     rule=("16-byte candidates from the shared instruction corpus: a seed-independent walk over every class of "
-          "each decoder table (fixed prefix classes x ModRM forms on x86) plus seed-dependent random bytes, stratified opcode "
+          "each decoder table (fixed prefix classes x ModRM forms on x86, boundary values of every free field) plus a "
+          "seed-dependent stream -- VERIF_SEED selects one of 13 (quick) / 2 (thorough) swept streams, seed mod N -- of random bytes, stratified opcode "
           "enumeration, decoder-table templates with random free fields, curated vectors of test/arch "
           "with bit flips) decoded by mn.dis in every arch/mode; the printed text is parsed back with "
           "mn.fromstring, printed, assembled and re-decoded; distinct = distinct (arch/mode, mnemonic, "
           "operand kinds); non-trivial = the decoder accepted the bytes"),
-    assumptions=["'same instruction' is compared on the printed text (the property is about text)",
+    assumptions=["the seed-dependent part is drawn from a closed set of streams (VERIF_SEED mod 13 quick, mod 2 thorough); other seeds repeat a stream",
+                 "'same instruction' is compared on the printed text (the property is about text)",
                  "PC-relative operands are printed and parsed as integers (offset form, no label) at offset 0"],
     timeout={"quick": 900, "thorough": 3400},
     exhaustive={"quick": False, "thorough": False},
@@ -26,7 +28,7 @@ WALK = {"quick": (1, 16), "thorough": (1, 6)}      # table walk: (rounds, stride
 
 
 def shards(tier, seed, scale):
-    return rt.shards(tier, seed, scale, PER_ARCH, WALK)
+    return rt.shards(tier, seed, scale, PER_ARCH, WALK, "C16")
 
 
 def run_shard(params, rec):
